@@ -117,6 +117,8 @@ def run(rep):
     import c01
     rep.guard(c01.r2, rep, w)     # what a loop remembers between steps (an element class, a one-character string) is rooted or recomputed: an address compared after its object was reclaimed matches another object
     rep.guard(c01.r0, rep, w)     # `words.iter().map("k".starts_with)`: the adapter holds a bound method whose blacken re-greys its receiver - the collector has to iterate to a fixpoint
+    import c04_narrow
+    rep.guard(c04_narrow.b4, rep, w)   # the jump back to the loop header is the distance measured: a body just under the limit must not wrap the operand
 
 
 def q1(rep, w):
